@@ -43,6 +43,46 @@ deriving DecidableEq, Repr
 def PErr.name : PErr → String
   | .value => "ValueError" | .argType => "ArgumentTypeError" | .overflow => "OverflowError"
 
+/-- why a parameter specification is refused: one constructor per `raise` site (message) of
+    `_parse_params_str` / `check_num_bounds` / `check_scaled_bounds` /
+    `_signatures_for_sketch_factory.__init__`, and per C field cffi refuses to fill -/
+inductive Reason where
+  | kNoParam          -- "k takes a parameter, e.g. 'k=31'"
+  | kNotInt           -- int(item[2:]) raises
+  | numNoParam        -- "num takes a parameter, e.g. 'num=500'"
+  | numAfterScaled    -- "cannot set both num and scaled in a single minhash" (at a num= item)
+  | numNotInt         -- "cannot parse num='..' as a number"
+  | numNegative       -- ArgumentTypeError "ERROR: num value must be positive"
+  | scaledNoParam     -- "scaled takes a parameter, e.g. 'scaled=1000'"
+  | scaledAfterNum    -- "cannot set both num and scaled in a single minhash" (at a scaled= item)
+  | scaledNotInt      -- "cannot parse scaled='..' as an integer"
+  | scaledNegative    -- ArgumentTypeError "ERROR: scaled value must be positive"
+  | scaledTooBig      -- OverflowError from float(int)
+  | seedNoParam       -- "seed takes a parameter, e.g. 'seed=42'"
+  | seedNotInt        -- int(item[5:]) raises
+  | unknownItem       -- "unknown component '..' in params string"
+  | moltypeUnderDna   -- "Incompatible sketch type (dna) and parameter override (..) ..; maybe use 'sketch translate'?"
+  | dnaUnderProtein   -- "Incompatible sketch type (..) and parameter override (dna) .."
+  | noMoltype         -- "No default moltype and none specified in param string"
+  | zeroSize          -- "must set either num or scaled to a non-zero value" (only once patches/C14.1 is applied)
+  | seedRange | ksizeRange | numRange | scaledRange   -- OverflowError from cffi
+deriving DecidableEq, Repr
+
+/-- the exception class a refusal surfaces as -/
+def Reason.cls : Reason → PErr
+  | .numNegative | .scaledNegative => .argType
+  | .scaledTooBig | .seedRange | .ksizeRange | .numRange | .scaledRange => .overflow
+  | _ => .value
+
+def Reason.name : Reason → String
+  | .kNoParam => "kNoParam" | .kNotInt => "notInt" | .numNoParam => "numNoParam"
+  | .numAfterScaled => "bothNumScaled" | .numNotInt => "numNotInt" | .numNegative => "numNegative"
+  | .scaledNoParam => "scaledNoParam" | .scaledAfterNum => "bothNumScaled" | .scaledNotInt => "scaledNotInt"
+  | .scaledNegative => "scaledNegative" | .scaledTooBig => "overflow" | .seedNoParam => "seedNoParam"
+  | .seedNotInt => "notInt" | .unknownItem => "unknownItem" | .moltypeUnderDna => "moltypeUnderDna"
+  | .dnaUnderProtein => "dnaUnderProtein" | .noMoltype => "noMoltype" | .zeroSize => "zeroSize"
+  | .seedRange | .ksizeRange | .numRange | .scaledRange => "overflow"
+
 /-! ### Python `int(str)` on ASCII strings -/
 
 def isSpace (c : Char) : Bool :=
@@ -66,14 +106,18 @@ def digitsVal : List Char → Nat → Bool → Option Nat
 def pyInt? (s : List Char) : Option Int :=
   let s := (s.dropWhile isSpace).reverse.dropWhile isSpace |>.reverse
   match s with
-  | '-' :: r => match r with
-    | c :: _ => if isDigit c then (digitsVal r 0 false).map (fun n => - (n : Int)) else none
-    | [] => none
-  | '+' :: r => match r with
-    | c :: _ => if isDigit c then (digitsVal r 0 false).map (fun n => (n : Int)) else none
-    | [] => none
-  | c :: _ => if isDigit c then (digitsVal s 0 false).map (fun n => (n : Int)) else none
   | [] => none
+  | c :: r =>
+    if c = '-' then
+      match r with
+      | d :: _ => if isDigit d then (digitsVal r 0 false).map (fun n => - (n : Int)) else none
+      | [] => none
+    else if c = '+' then
+      match r with
+      | d :: _ => if isDigit d then (digitsVal r 0 false).map (fun n => (n : Int)) else none
+      | [] => none
+    else if isDigit c then (digitsVal s 0 false).map (fun n => (n : Int))
+    else none
 
 /-- `float(n)` for a non-negative integer, as the integer it denotes; `none` = OverflowError -/
 def floatOfNat (n : Nat) : Option Nat :=
@@ -110,52 +154,52 @@ def molOfItem (item : List Char) : Option Mol :=
   else none
 
 /-- one iteration of the `for item in items` loop -/
-def stepItem (st : Option Mol × Params) (item : List Char) : Except PErr (Option Mol × Params) :=
+def stepItem (st : Option Mol × Params) (item : List Char) : Except Reason (Option Mol × Params) :=
   let mt := st.1
   let p := st.2
   if item = "abund".toList then .ok (mt, { p with track := some true })
   else if item = "noabund".toList then .ok (mt, { p with track := some false })
   else if "k".toList.isPrefixOf item then
-    if item.length < 3 ∨ item[1]? ≠ some '=' then .error .value
+    if item.length < 3 ∨ item[1]? ≠ some '=' then .error .kNoParam
     else match pyInt? (item.drop 2) with
       | some k => .ok (mt, { p with ksize := p.ksize ++ [k] })
-      | none => .error .value
+      | none => .error .kNotInt
   else if "num".toList.isPrefixOf item then
-    if item.length < 5 ∨ item[3]? ≠ some '=' then .error .value
-    else if truthy p.scaled then .error .value
+    if item.length < 5 ∨ item[3]? ≠ some '=' then .error .numNoParam
+    else if truthy p.scaled then .error .numAfterScaled
     else match pyInt? (item.drop 4) with
-      | none => .error .value
+      | none => .error .numNotInt
       | some n =>
-        if n < 0 then .error .argType
+        if n < 0 then .error .numNegative
         else .ok (mt, { p with num := some n.toNat, scaled := some 0 })
   else if "scaled".toList.isPrefixOf item then
-    if item.length < 8 ∨ item[6]? ≠ some '=' then .error .value
-    else if truthy p.num then .error .value
+    if item.length < 8 ∨ item[6]? ≠ some '=' then .error .scaledNoParam
+    else if truthy p.num then .error .scaledAfterNum
     else match pyInt? (item.drop 7) with
-      | none => .error .value
+      | none => .error .scaledNotInt
       | some n =>
         match floatOfNat n.natAbs with
-        | none => .error .overflow
+        | none => .error .scaledTooBig
         | some f =>
-          if n < 0 then .error .argType
+          if n < 0 then .error .scaledNegative
           else .ok (mt, { p with scaled := some f, num := some 0 })
   else if "seed".toList.isPrefixOf item then
-    if item.length < 6 ∨ item[4]? ≠ some '=' then .error .value
+    if item.length < 6 ∨ item[4]? ≠ some '=' then .error .seedNoParam
     else match pyInt? (item.drop 5) with
       | some n => .ok (mt, { p with seed := some n })
-      | none => .error .value
+      | none => .error .seedNotInt
   else match molOfItem item with
     | some m => .ok (some m, p)
-    | none => .error .value
+    | none => .error .unknownItem
 
-def foldItems : List (List Char) → Option Mol × Params → Except PErr (Option Mol × Params)
+def foldItems : List (List Char) → Option Mol × Params → Except Reason (Option Mol × Params)
   | [], st => .ok st
   | item :: items, st =>
     match stepItem st item with
     | .ok st' => foldItems items st'
     | .error e => .error e
 
-def parseParamsStr (s : List Char) : Except PErr (Option Mol × Params) :=
+def parseParamsStr (s : List Char) : Except Reason (Option Mol × Params) :=
   foldItems (splitOn ',' s) (none, {})
 
 /-! ### `_signatures_for_sketch_factory` -/
@@ -173,27 +217,27 @@ def defaultsOf (m : Mol) : Params :=
     | .error _ => {}
   | none => {}
 
-/-- `__init__`: the list `params_list` -/
-def factoryInit : List (List Char) → Option Mol → Except PErr (List (Mol × Params))
-  | [], none => .error .value
+/-- `__init__`: the list `params_list` (before the size check) -/
+def factoryInitCore : List (List Char) → Option Mol → Except Reason (List (Mol × Params))
+  | [], none => .error .noMoltype
   | [], some d => .ok [(d, {})]
   | ps, dflt => go ps dflt
 where
-  go : List (List Char) → Option Mol → Except PErr (List (Mol × Params))
+  go : List (List Char) → Option Mol → Except Reason (List (Mol × Params))
     | [], _ => .ok []
     | s :: rest, dflt =>
       match parseParamsStr s with
       | .error e => .error e
       | .ok (mt, p) =>
-        let chosen : Except PErr Mol :=
+        let chosen : Except Reason Mol :=
           match mt with
           | some m =>
-            if m ≠ .dna ∧ dflt = some .dna then .error .value
-            else if m = .dna ∧ dflt ≠ none ∧ dflt ≠ some .dna then .error .value
+            if m ≠ .dna ∧ dflt = some .dna then .error .moltypeUnderDna
+            else if m = .dna ∧ dflt ≠ none ∧ dflt ≠ some .dna then .error .dnaUnderProtein
             else .ok m
           | none =>
             match dflt with
-            | none => .error .value
+            | none => .error .noMoltype
             | some d => .ok d
         match chosen with
         | .error e => .error e
@@ -201,6 +245,21 @@ where
           match go rest dflt with
           | .error e => .error e
           | .ok l => .ok ((m, p) :: l)
+
+/-- neither a num nor a scaled, after the per-moltype defaults are applied: the sketch would stay
+    empty whatever is added to it -/
+def zeroSized (mp : Mol × Params) : Bool :=
+  let d := defaultsOf mp.1
+  let num := match mp.2.num with | some n => n | none => d.num.getD 0
+  let scaled := match mp.2.scaled with | some s => s | none => d.scaled.getD 0
+  num == 0 && scaled == 0
+
+/-- `__init__`.  Whether it ends with the size check of patches/C14.1 is read from the source by the
+    translator (`Gen.sketchRefusesZero`; without it `scaled=0` / `num=0` are accepted: finding C14.1) -/
+def factoryInit (ps : List (List Char)) (dflt : Option Mol) : Except Reason (List (Mol × Params)) :=
+  match factoryInitCore ps dflt with
+  | .error e => .error e
+  | .ok pl => if Gen.sketchRefusesZero && pl.any zeroSized then .error .zeroSize else .ok pl
 
 /-- `ComputeParameters` (the fields the factory sets) -/
 structure CP where
@@ -245,16 +304,16 @@ def rawOf (m : Mol) (p : Params) : RawCP :=
       | none => d.scaled.getD 0 }
 
 /-- the cffi setters: every value must fit its C field -/
-def mkCP (r : RawCP) (ksizes : List Int) : Except PErr CP :=
-  if r.seed < 0 ∨ r.seed ≥ 2 ^ 64 then .error .overflow
-  else if ksizes.any (fun k => k < 0 ∨ k ≥ 2 ^ 32) then .error .overflow
-  else if r.num ≥ 2 ^ 32 then .error .overflow
-  else if r.scaled ≥ 2 ^ 64 then .error .overflow
+def mkCP (r : RawCP) (ksizes : List Int) : Except Reason CP :=
+  if r.seed < 0 ∨ r.seed ≥ 2 ^ 64 then .error .seedRange
+  else if ksizes.any (fun k => k < 0 ∨ k ≥ 2 ^ 32) then .error .ksizeRange
+  else if r.num ≥ 2 ^ 32 then .error .numRange
+  else if r.scaled ≥ 2 ^ 64 then .error .scaledRange
   else .ok { ksizes := ksizes.map Int.toNat, seed := r.seed.toNat,
              protein := r.mol = .protein, dayhoff := r.mol = .dayhoff, hp := r.mol = .hp,
              dna := r.mol = .dna, num := r.num, track := r.track, scaled := r.scaled }
 
-def mapM' {α β} (f : α → Except PErr β) : List α → Except PErr (List β)
+def mapM' {α β} (f : α → Except Reason β) : List α → Except Reason (List β)
   | [] => .ok []
   | a :: as =>
     match f a with
@@ -265,7 +324,7 @@ def mapM' {α β} (f : α → Except PErr β) : List α → Except PErr (List β
       | .ok bs => .ok (b :: bs)
 
 /-- `get_compute_params(split_ksizes=)` for one entry of `params_list` -/
-def computeParamsOf (split : Bool) (mp : Mol × Params) : Except PErr (List CP) :=
+def computeParamsOf (split : Bool) (mp : Mol × Params) : Except Reason (List CP) :=
   let r := rawOf mp.1 mp.2
   if split then mapM' (fun k => mkCP r [k]) r.ksizes
   else (mkCP r r.ksizes).map (fun c => [c])
@@ -286,7 +345,7 @@ def buildTemplate (p : CP) : List BT :=
 
 /-- `_signatures_for_sketch_factory(params_str_list, default_moltype)(split_ksizes=)`:
     one signature (a list of sketches) per parameter set -/
-def factory (ps : List (List Char)) (dflt : Option Mol) (split : Bool) : Except PErr (List (List BT)) :=
+def factory (ps : List (List Char)) (dflt : Option Mol) (split : Bool) : Except Reason (List (List BT)) :=
   match factoryInit ps dflt with
   | .error e => .error e
   | .ok pl =>
